@@ -4,14 +4,14 @@ import common
 from common import VERIF, COQ, BIN, CheckError
 
 MODEL_FILES = ["Base/Str.v", "Base/Json.v", "Gen/GenDiffTables.v", "Tools/DiffTypes.v", "Tools/DiffReport.v",
-               "Tools/DiffSpec.v", "Tools/DiffModel.v", "Tools/DiffRun.v"]
+               "Tools/DiffSpec.v", "Tools/DiffModel.v", "Tools/DiffExt.v", "Tools/DiffRun.v"]
 
 CFG = {
-    "C12": dict(props="Props/C12.v", lemmas=["Tools/DiffModelLemmas.v", "Tools/DiffIdentity.v", "Tools/DiffTotal.v"], proj="PTotal", oracle="C12",
+    "C12": dict(props="Props/C12.v", lemmas=["Tools/DiffModelLemmas.v", "Tools/DiffIdentity.v", "Tools/DiffTotal.v", "Tools/DiffExtLemmas.v"], proj="PTotal", oracle="C12",
                 n_quick=(400, 240), n_thorough=(6000, 3000)),
     "C13": dict(props="Props/C13.v", lemmas=["Tools/DiffModelLemmas.v", "Tools/DiffSound.v", "Tools/DiffParams.v", "Tools/DiffIdentity.v", "Tools/DiffDocSound.v"], proj="PBreaking", oracle="C13",
                 n_quick=(900, 1200), n_thorough=(10000, 12000)),
-    "C14": dict(props="Props/C14.v", lemmas=["Tools/DiffModelLemmas.v"], proj="PCodes", oracle="C14",
+    "C14": dict(props="Props/C14.v", lemmas=["Tools/DiffModelLemmas.v", "Tools/DiffIdentity.v", "Tools/DiffExtLemmas.v", "Tools/DiffDocMirror.v"], proj="PCodes", oracle="C14",
                 n_quick=(1500, 360), n_thorough=(12000, 6000)),
     "C15": dict(props="Props/C15.v", lemmas=["Tools/DiffReportLemmas.v"], proj=None, oracle="C15",
                 n_quick=(0, 100), n_thorough=(0, 1500)),
